@@ -29,6 +29,19 @@ How (same idea as CrossHair, reduced to what these properties need):
   exception whose single argument is a SymStr) → compiled in a copy of the function's own
   globals.  Nothing else of the source is touched; the evidence hashes the live source.
 
+* Concrete strings that meet symbolic ones are wrapped in ``CharSet`` (a ``str`` subclass that is
+  plain ``str`` for real-string arguments and runs the char-array operation when an argument is
+  symbolic): module-level ``str`` constants of loaded functions, every all-concrete result of a
+  symbolic operation, desugared f-string results.  A plain ``str`` that slips through still
+  fails loudly.
+* Exhaustiveness: ``Explorer.run`` returns only when the work list is empty (every feasible side
+  of every decision was executed), or sets ``timed_out``; ``unknown`` from z3, an unmodelled
+  operation or a branch condition that differs on re-execution raise ``Unsupported``.  Callers
+  must report INCONCLUSIVE in all these cases.
+* Shortcuts that avoid solver calls (declared alphabets of ``sym(only=...)`` variables decide
+  ``var == char`` for characters outside the alphabet) restate constraints that are asserted on
+  the path anyway.
+
 Soundness notes (also in each harness' ASSUMPTIONS): ASCII only; ``repr`` of a symbolic string is
 a placeholder (only reached inside stdlib error messages nobody inspects); statement order and
 semantics of every modelled ``str`` method follow CPython for ASCII input and are cross-checked
@@ -174,11 +187,34 @@ def _code(e: Any) -> Any:
     return ord(e) if isinstance(e, str) else e
 
 
+_DOM: dict[int, tuple[Any, frozenset]] = {}  # z3 ast id of a variable -> (variable, declared alphabet)
+
+
+def _dom(e: Any) -> Any:
+    d = _DOM.get(e.get_id())
+    return d[1] if d is not None and d[0] is e else None
+
+
 def _eq1(a: Any, b: Any) -> Any:
-    """Equality of two elements: Python bool or z3 Bool."""
-    if isinstance(a, str) and isinstance(b, str):
+    """Equality of two elements: Python bool or z3 Bool.
+
+    A variable declared over an explicit alphabet (``sym(only=...)``) cannot equal a character
+    outside it (nor a variable over a disjoint alphabet): answered without the solver (the same
+    constraint is asserted on the path, this is only a shortcut).
+    """
+    sa, sb = isinstance(a, str), isinstance(b, str)
+    if sa and sb:
         return a == b
-    return _code(a) == _code(b)
+    if sa or sb:
+        v, c = (b, a) if sa else (a, b)
+        d = _dom(v)
+        if d is not None and ord(c) not in d:
+            return False
+        return v == ord(c)
+    da, db = _dom(a), _dom(b)
+    if da is not None and db is not None and not (da & db):
+        return False
+    return a == b
 
 
 def _and(terms: list) -> Any:
@@ -231,6 +267,9 @@ def _ranges(chars: str) -> list[tuple[int, int]]:
 def _in_set(e: Any, chars: str) -> Any:
     if isinstance(e, str):
         return e in chars
+    d = _dom(e) if z3.is_const(e) else None
+    if d is not None and not (d & {ord(c) for c in chars}):
+        return False
     key = (id(e), str(chars))
     hit = _SETCACHE.get(key)
     if hit is not None and hit[0] is e:
@@ -620,6 +659,13 @@ def evaluate(x: Any) -> Any:
     return ev(x)
 
 
+def contains_any(text: Any, chars: str) -> bool:
+    """Does ``text`` contain any character of ``chars``?  (one decision instead of len(chars))"""
+    if type(text) is SymStr:
+        return branch(_or([_in_set(e, chars) for e in text._e]))
+    return any(c in text for c in chars)
+
+
 def sym(name: str, n: int, *, exclude: str = "", only: str | None = None) -> Any:
     """A fresh symbolic string of exactly ``n`` ASCII characters."""
     p = _path()
@@ -629,6 +675,7 @@ def sym(name: str, n: int, *, exclude: str = "", only: str | None = None) -> Any
         p.vars.append(v)
         if only is not None:
             p.solver.add(z3.Or(*[v == ord(c) for c in only]))
+            _DOM[v.get_id()] = (v, frozenset(ord(c) for c in only))
         else:
             p.solver.add(v >= 0, v < 128)
             for c in exclude:
